@@ -265,6 +265,31 @@ fn prefixes(tier: Tier) -> Box<dyn Iterator<Item = Case>> {
     }))
 }
 
+/// replay-only: matching a pattern with `groups` nested brace groups on a thread with a stack of
+/// `stack_kib` KiB (the matcher recurses once per group; witness of known finding KF-2)
+#[derive(Clone, Debug, Serialize, Deserialize)]
+pub struct DeepCase {
+    pub groups: u32,
+    pub stack_kib: u32,
+}
+
+pub fn check_deep(c: &DeepCase, _obs: &mut Obs) -> Result<(), String> {
+    let n = c.groups as usize;
+    let stack = (c.stack_kib as usize) << 10;
+    let h = std::thread::Builder::new()
+        .stack_size(stack)
+        .spawn(move || {
+            let p = format!("{}a{}", "{".repeat(n), "}".repeat(n));
+            pkgsrc::Pattern::new(&p).map(|p| p.matches("a")).unwrap_or(false)
+        })
+        .map_err(|e| e.to_string())?;
+    match h.join() {
+        Ok(true) => Ok(()),
+        Ok(false) => Err(format!("{} nested groups around 'a' do not match 'a'", n)),
+        Err(_) => Err("panic while matching".into()),
+    }
+}
+
 macro_rules! target_stream {
     ($name:expr, $q:expr, $t:expr) => {
         random_stream($name, concat!("entry points of target '", $name, "': arbitrary bytes, grammar-derived documents and mutations of them"), |_| cases_for($name), |t| t.pick($q, $t), check)
@@ -293,6 +318,13 @@ pub fn property() -> Property {
             target_stream!("summary_ops", 20_000, 600_000),
             enumerated_stream("fixture-prefixes", "every prefix of the repository's fixtures at every entry point that reads them", prefixes, check),
             crate::fuzz::replay_stream(),
+            random_stream(
+                "deep-nesting",
+                "replay-only: N nested brace groups on a thread with a given stack (witness of KF-2)",
+                |_| (1u32..4, 64u32..128).prop_map(|(groups, stack_kib)| DeepCase { groups, stack_kib }).boxed(),
+                |_| 0,
+                check_deep,
+            ),
         ],
         selfcheck: || Ok(()),
         hang_is_violation: true,
